@@ -31,6 +31,10 @@ def main():
                  f"still at 140 passed." + (f" Not killed: {survivors}." if survivors else ""))
     lines.append("")
     lines.append("#### 9.2 Independently seeded changes (tools/seeded.py, quick tier, 25 s budget per run)\n")
+    lines.append("The last full run was made in four parallel shards with 4 worker processes per check run (instead of the 16 the "
+                 "registered quick commands use); the three changes it missed that way (C18-2, C18-r16-2, C19-r18-2) were run again "
+                 "with the registered worker count (40 s) and are detected. Every row: the patch applies, the pinned baseline still "
+                 "reports 140 passed, the author's demo exits 0 on the unchanged tree and 1 on the patched one.\n")
     lines.append("| id | files touched | what it needs to manifest (author's words, abridged) | detected by | signature |")
     lines.append("|---|---|---|---|---|")
     for r in seeded["results"]:
